@@ -157,6 +157,10 @@ def judge_comments(src, col=None, max_variants=None, picks=None):
             other = next((c for c in codes_present + ["undefined_name", "incompatible_call"] if c not in here), None)
             if other:
                 cand.append(("other", other))
+            # a code that no diagnostic of the file carries: the comment suppresses nothing wherever it stands
+            absent = next((c for c in ("missing_await", "bad_super_call", "duplicate_dict_key", "not_callable") if c not in codes_present), None)
+            if absent and (L in diag_lines or L <= 3 or L >= n - 1):
+                cand.append(("absent", absent))
             for variant, code in cand:
                 variants.append((form, L, variant, code))
     # an own-line comment appended after the last line targets nothing
